@@ -53,6 +53,10 @@ func (c CounterStyle) resolveCounter(counterName string, previousTypes utils.Set
 				continue
 			}
 			counter.merge(extendedCounter)
+		} else if _, has := c["decimal"]; has && system != "decimal" {
+			// "If the specified counter style name isn't the name of any defined counter style,
+			// it must be treated as if it was extending the decimal counter style."
+			system = "decimal"
 		} else {
 			return &counter
 		}
